@@ -35,6 +35,7 @@ var (
 
 func CloseProxy(address string) error {
 	mu.Lock()
+	defer mu.Unlock()
 	if srv, ok := servers[address]; ok {
 		err := srv.Close()
 		if err != nil {
@@ -43,7 +44,6 @@ func CloseProxy(address string) error {
 		log.Printf("[INFO] Dynamic TCP listener on %s has been terminated", address)
 		delete(servers, address)
 	}
-	mu.Unlock()
 	return nil
 }
 
